@@ -123,7 +123,10 @@ LeakOnlyTwoSites(c) == Leak(c) # "none" => (Dev_PrefixMatch /\ (ImplHealth(c) \/
 Viol(name, ok) == IF ok THEN {} ELSE {name}
 Conforms(c, o) ==
        Viol("NoServiceCodeWhenRejected", o.auth = "rejected" => ~o.ran)
-  \cup Viol("NoDispatchWithoutAuth", (o.ran /\ ~Exempt(c)) => o.auth = "accepted")
+  \* the exemption list is for framework endpoints, which never reach service code: service code running without the
+  \* callback having accepted the request is a dispatch that authentication did not precede -- exempt path or not
+  \* (e.g. a responder behind the exempt {prefix}/health path that forwards POST to the RPC method `health`)
+  \cup Viol("NoDispatchWithoutAuth", o.ran => o.auth = "accepted")
   \cup Viol("OnlyListedBypass", (~Exempt(c)) => o.auth # "none")
   \cup Viol("Rejected401", o.auth = "rejected" => o.status = 401)
   \cup Viol("ListedBypass", Exempt(c) => o.status # 401)
